@@ -14,6 +14,7 @@ import hashlib
 VERIF = os.path.dirname(os.path.dirname(os.path.abspath(__file__)))
 REPO = os.environ.get('VERIF_REPO', '/repo')
 PKG = os.path.join(REPO, 'pytoniq_core')
+OUT = os.environ.get('VERIF_OUT', VERIF)     # evidence/replays go here (self-test runs redirect it)
 
 
 class AnalysisError(Exception):
@@ -106,23 +107,24 @@ class Run:
 
     def finish(self):
         wall = time.time() - self.t0
-        # floors: a rule that matched fewer sites than confirmed by hand can never pass
-        for rid, fl in self.floors.items():
-            n = sum(1 for o in self.obl if o['rule'] == rid)
-            if n < fl:
-                raise AnalysisError(f'rule {rid} decided {n} instance(s), floor is {fl} - anchor lost or rule went vacuous')
         known = self.known()
         bad = [o for o in self.obl if not o['ok']]
         viol, kf = {}, {}
         for o in bad:
             key = (o['rule'], o['construct'])
             (kf if key in known else viol).setdefault(key, o)
+        if not viol:
+            # floors: a rule that matched fewer sites than confirmed by hand can never pass (vacuous rules never pass)
+            for rid, fl in self.floors.items():
+                n = sum(1 for o in self.obl if o['rule'] == rid)
+                if n < fl:
+                    raise AnalysisError(f'rule {rid} decided {n} instance(s), floor is {fl} - anchor lost or rule went vacuous')
         for key, o in kf.items():
             print(f"KNOWN-FINDING: property={self.pid} {key[0]} {key[1]}: {known[key].get('what', o['detail'])}")
         rc = 0
         for key, o in viol.items():
             rc = 1
-            path = os.path.join(VERIF, 'replays', f'{self.pid}-{_slug(key[0])}-{_slug(key[1])}.json')
+            path = os.path.join(OUT, 'replays', f'{self.pid}-{_slug(key[0])}-{_slug(key[1])}.json')
             try:
                 os.makedirs(os.path.dirname(path), exist_ok=True)
                 json.dump(dict(property=self.pid, rule=key[0], rule_text=self.rules.get(key[0], ''), construct=key[1],
@@ -165,7 +167,7 @@ class Run:
         )
         ev = dict(property_id=self.pid, tier=self.tier, seed=self.seed, level=self.level, coverage=cov,
                   assumptions=self.assumptions, wall_s=round(wall, 3), violations=nviol)
-        d = os.path.join(VERIF, 'evidence')
+        d = os.path.join(OUT, 'evidence')
         os.makedirs(d, exist_ok=True)
         tmp = os.path.join(d, f'.{self.pid}.json.tmp')
         json.dump(ev, open(tmp, 'w'), indent=1, default=str)
